@@ -163,6 +163,10 @@ func vfSimpleHistory(t *testing.T, rng *rand.Rand, randsub bool, nops int) (lit 
 				} else {
 					subs[tp].Cancel()
 					synctest.Wait()
+					if rng.Intn(2) == 0 {
+						subs[tp].Cancel() // cancelling twice is harmless: one LEAVE only
+						synctest.Wait()
+					}
 					vfEval(ps, func() {})
 					delete(subs, tp)
 					emit(fmt.Sprintf("RLeave %d", tp))
@@ -270,6 +274,6 @@ func TestVF_Simple(t *testing.T) {
 			cs.kind("floodsub")
 		}
 	}
-	cs.flush("random histories on real floodsub and randomsub nodes with fake peers (floodsub-only and randomsub peers, network-size estimates 1..150): peer arrivals and departures, subscription announcements, Subscribe / Cancel through the API, local publications and messages from peers with and without an author, duplicates; after every operation the full recipient set (read off the outbound queues) and the events an attached EventTracer received are compared with the model; " +
+	cs.flush("random histories on real floodsub and randomsub nodes with fake peers (floodsub-only and randomsub peers, network-size estimates 1..150): peer arrivals and departures, subscription announcements, Subscribe / Cancel (also twice) through the API, local publications and messages from peers with and without an author, duplicates; after every operation the full recipient set (read off the outbound queues) and the events an attached EventTracer received are compared with the model; " +
 		"non-trivial = more than 10 steps and, for randomsub, at least one message for which more than RandomSubD randomsub peers were eligible (a random selection happened); distinct = hash of the history")
 }
